@@ -40,6 +40,44 @@ pub fn check_intra_on(pic: &Pic, st: &mut H263State) -> Result<IntraInfo, String
     })
 }
 
+/// Pictures of more than 65 536 macroblocks, every macroblock with its own flat level (any
+/// macroblock decoded into the wrong place, or not at all, shows): 4112x4096 in both tiers, two
+/// more shapes in the thorough tier.
+fn huge_item(i: u64, acc: &mut Acc) {
+    const SIZES: [(u16, u16); 3] = [(4112, 4096), (16400, 1040), (1030, 16500)];
+    let (w, h) = SIZES[i as usize % 3];
+    let mut hdr = Header::sorenson((i % 2) as u8, PicType::I, Size::Custom16(w, h), 5);
+    hdr.tr = 11;
+    let (mbw, mbh) = hdr.mb_dims().unwrap();
+    let mut mbs = Vec::with_capacity(mbw * mbh);
+    for n in 0..mbw * mbh {
+        let mut mb = Mb::new(MbKind::Intra);
+        // a level that depends on both macroblock coordinates and repeats with period 251 x 241
+        let v = 20 + (((n % mbw) % 251) * 7 + ((n / mbw) % 241) * 13) % 200;
+        for b in 0..6 {
+            let dc = (v + b) as u8;
+            mb.blocks[b].dc = if dc == 128 { 129 } else { dc };
+        }
+        mbs.push(mb);
+    }
+    let pic = Pic { hdr, mbs, trailing_zero_bits: 0 };
+    acc.count(true);
+    acc.count(true);
+    match check_intra(&pic) {
+        Err(m) => {
+            if m.starts_with("HARNESS") {
+                panic!("{}", m);
+            }
+            acc.fail(json!({"kind":"params","huge":i}), format!("{}x{} picture ({} macroblocks): {}", w, h, mbw * mbh, m));
+        }
+        Ok(_) => {
+            if i == 0 {
+                acc.sample(|| json!({"size": [w, h], "macroblocks": mbw * mbh, "content": "one flat level per macroblock, a function of its coordinates"}));
+            }
+        }
+    }
+}
+
 fn intra_case(g: &mut Gen, cfg: &PicCfg) -> Verdict {
     let (mode, version) = gen_mode(g, cfg);
     // a third of the pictures are decoded by a decoder that has already seen other data (drawn
@@ -238,6 +276,7 @@ pub fn run(ctx: &Ctx) -> i32 {
     reports.push(exhaustive_suite(ctx, "zigzag_index_sweep", 63 * 3 * 3, &systematic_item));
     let cases = ctx.tier.pick(120_000u64, 2_500_000u64);
     reports.push(tape_suite(ctx, "random_intra_pictures", cases, 4096, &move |g| intra_case(g, &cfg)));
+    reports.push(exhaustive_suite(ctx, "more_than_65536_macroblocks", ctx.tier.pick(1u64, 3u64), &huge_item));
     if ctx.tier == Tier::Thorough {
         // the large fixed formats, few cases each
         let big = PicCfg {
@@ -285,6 +324,14 @@ pub fn replay(suite: &str, case: &Value) -> Option<Verdict> {
             Some(f) => Verdict::fail(f.msg),
             None => Verdict::pass(true, 0),
         }),
+        "more_than_65536_macroblocks" => {
+            let mut acc = Acc::default();
+            huge_item(case["huge"].as_u64()?, &mut acc);
+            Some(match acc.failure {
+                Some((_, _, m, _)) => Verdict::fail(m),
+                None => Verdict::pass(true, 0),
+            })
+        }
         "zigzag_index_sweep" => {
             let mut acc = Acc::default();
             systematic_item(case["item"].as_u64()?, &mut acc);
